@@ -1,7 +1,8 @@
-import Qryn.LogQL.PlannerMetric
-/-! Model of the Loki series and label-values planners over a selector of the C07 fragment:
+import Qryn.LogQL.Planner
+/-! Model of the Loki series and label-values planners:
     planner_series.go (`SeriesPlanner.Process`), planner_values.go (`ValuesPlanner.Process`), with the fingerprint
-    planner of `PlanFingerprints` (`planTS`, modelled by `fpQuery`). Tied by text (stream `model-series` of C13). -/
+    planner of `PlanFingerprints` (planner_plan_fingerprints.go: the stream selector's matchers only — pipeline stages
+    of the script are not planned). Tied by text (stream `model-series` of C13). -/
 namespace Qryn.LogQL
 open Qryn Qryn.Sql
 
@@ -10,13 +11,16 @@ def toDate (c : Ctx) : Bytes := Time.formatDate (Int.fdiv c.toNs 1000000000)
 
 def limitOf (c : Ctx) : Option Expr := if c.limit > 0 then some (.int c.limit) else none
 
+/-- `sql.NewWith(fpSel, "fp_sel")` over `PlanFingerprints(script).Process` -/
+def fpSelWith (c : Ctx) (ms : List Matcher) : Alias × Sel := (.named "fp_sel", streamSelect c ms)
+
 /-- `SeriesPlanner.Process` -/
-def planSeries (c : Ctx) (q : LogQuery) : Sel :=
+def planSeries (c : Ctx) (ms : List Matcher) : Sel :=
   let table := if c.isCluster then c.tsDistTable else c.tsTable
   ((Sel.mk [] true [simpleCol "labels" "labels"] (some (.col (.raw table) "time_series")) [] none
     (some (and_ [ge (.raw "date") (.str (Time.formatFromDate c.fromNs)), le (.raw "date") (.str (toDate c)),
                  .isIn (.raw "fingerprint") [.withRef (.named "fp_sel")], getTypes c]))
-    [] none [] none).with_ [fpWith c q]).setLimit (limitOf c)
+    [] none [] none).with_ [fpSelWith c ms]).setLimit (limitOf c)
 
 /-- the scan of `ValuesPlanner.Process` before the optional fingerprint restriction -/
 def valuesBase (c : Ctx) (key : Bytes) : Sel :=
@@ -25,10 +29,10 @@ def valuesBase (c : Ctx) (key : Bytes) : Sel :=
                  eq (.raw "key") (.str key), getTypes c]))
     [] none [] none
 
-/-- `ValuesPlanner.Process`; `q = none`: no selector was given (`FingerprintsPlanner == nil`) -/
-def planValues (c : Ctx) (key : Bytes) (q : Option LogQuery) : Sel :=
-  (match q with
+/-- `ValuesPlanner.Process`; `ms = none`: no selector was given (`FingerprintsPlanner == nil`) -/
+def planValues (c : Ctx) (key : Bytes) (ms : Option (List Matcher)) : Sel :=
+  (match ms with
    | none => valuesBase c key
-   | some q => ((valuesBase c key).with_ [fpWith c q]).andWhere [.isIn (.raw "fingerprint") [.withRef (.named "fp_sel")]]).setLimit (limitOf c)
+   | some ms => ((valuesBase c key).with_ [fpSelWith c ms]).andWhere [.isIn (.raw "fingerprint") [.withRef (.named "fp_sel")]]).setLimit (limitOf c)
 
 end Qryn.LogQL
